@@ -5,6 +5,7 @@ import (
 	"encoding/binary"
 	"errors"
 	"fmt"
+	"github.com/KevoDB/kevo/pkg/verifhook"
 	"os"
 	"path/filepath"
 
@@ -70,6 +71,7 @@ func (fm *FileManager) FinalizeFile() error {
 		return fmt.Errorf("failed to rename temp file: %w", err)
 	}
 
+	verifhook.At("sst.finish.renamed")
 	return nil
 }
 
@@ -513,11 +515,13 @@ func (w *Writer) Finish() (err error) {
 		return fmt.Errorf("wrote incomplete footer: %d of %d bytes", n, len(footerData))
 	}
 
+	verifhook.At("sst.finish.written")
 	// Sync the file
 	if err := w.fileManager.Sync(); err != nil {
 		return fmt.Errorf("failed to sync file: %w", err)
 	}
 
+	verifhook.At("sst.finish.synced")
 	// Finalize file (close and rename)
 	return w.fileManager.FinalizeFile()
 }
